@@ -309,8 +309,31 @@ def main():
         script += [{"op": "call", "inst": 1, "export": "icall", "args": [arg("i32", k)]} for k in probes]
         script += [{"op": "call", "inst": 1, "export": "get%d" % k, "args": []} for k in probes if k < cnt]
         items.append({"id": "cnt%d" % cnt, "module": m, "script": script})
+    # segments in layers: what a later segment writes wins, whatever it writes - zeros over non-zero bytes, non-zero bytes
+    # over zeros, a zero segment that nothing lies under, partly zero ones - in a defined (plain and shared) and an imported memory
+    def seg(off, bs):
+        return {"mode": "active", "offset": ["i32.const", b32(off)], "bytes": bs}
+    layers = [seg(8, [1, 2, 3, 4, 5, 6]), seg(9, [0, 0, 0]), seg(20, [9, 9, 9, 9]), seg(18, [0] * 8), seg(19, [7]), seg(30, [0, 0]), seg(30, [5]),
+              seg(40, [1, 2, 3]), seg(40, [0, 0, 0]), seg(41, [0]), seg(50, [0, 4, 0]), seg(49, [6, 0, 0, 0, 6]), seg(60, [0] * 40), seg(70, [1]),
+              seg(65532, [1, 2, 3, 4]), seg(65533, [0, 0, 0])]
+    for memk in ("defined", "shared", "imported"):
+        peek = {"type": 0, "locals": [], "body": [["local.get", 0], ["i32.load8_u", 0, 0], ["end"]]}
+        m = {"types": [{"p": ["i32"], "r": ["i32"]}], "funcs": [peek], "data": [dict(x) for x in layers],
+             "exports": [{"name": "peek", "kind": "func", "idx": 0}]}
+        script = []
+        if memk == "imported":
+            m["imports"] = [{"mod": "env", "name": "mem", "kind": "memory", "min": 1, "max": 2}]
+            script.append({"op": "hostmem", "pages": 1, "max": 2, "shared": False})
+        else:
+            m["memory"] = dict({"min": 1, "max": 2}, **({"shared": True} if memk == "shared" else {}))
+            m["exports"].append({"name": "memory", "kind": "memory", "idx": 0})
+        script.append({"op": "instantiate", "binds": {"mem": 1 if memk == "imported" else 0, "table": 0, "globals": []}})
+        script += [{"op": "call", "inst": 1, "export": "peek", "args": [arg("i32", a_)]} for a_ in (9, 10, 19, 41, 65533)]
+        items.append({"id": "layers_" + memk, "module": m, "script": script})
     builds = [{"name": "gcc-O1", "cc": "gcc", "cflags": ("-O1",)},
-              {"name": "gcc-O1-gnu-ld", "cc": "gcc", "cflags": ("-O1",), "w2c2_opts": ("-m", "-d", "gnu-ld")}]
+              {"name": "gcc-O1-gnu-ld", "cc": "gcc", "cflags": ("-O1",), "w2c2_opts": ("-m", "-d", "gnu-ld")},
+              # a C library that is as unhelpful as the standard allows (see machine.HOSTILE_LIBC)
+              machine.HOSTILE_LIBC]
     if tier != "quick":
         builds.append({"name": "clang-O2", "cc": "clang", "cflags": ("-O2",)})
     st, exp = machine.replay(v, items, builds, sigfn=sig)
